@@ -222,6 +222,14 @@ func (x *Exec) callWrites(c *ssa.CallCommon, li *loopInfo) {
 	}
 	key, fc := x.calleeContract(c)
 	if fc == nil {
+		switch key {
+		case "net/http.(Header).Set", "net/http.(Header).Add", "net/http.(Header).Del":
+			// modelled as map writes on the receiver (plus fresh value slices)
+			li.mapOps = append(li.mapOps, mapOp{c.Args[0], c.Args[0].Type().Underlying().(*types.Map)})
+			li.heap[allocKey] = true
+			li.fresh[sliceKey(types.Typ[types.String], "")] = true
+			return
+		}
 		if x.isPureExtern(key, c) {
 			return
 		}
